@@ -1,0 +1,20 @@
+//go:build verif
+
+package support
+
+import (
+	"github.com/go-kid/ioc/component_definition"
+	"github.com/go-kid/ioc/container"
+)
+
+// VerifLevels reports, without side effects, where name currently sits in the default singleton component registry.
+func VerifLevels(r container.SingletonComponentRegistry, name string) (l1, l2 *component_definition.Meta, l3, inCreation, ok bool) {
+	d, isDefault := r.(*defaultSingletonComponentRegistry)
+	if !isDefault {
+		return nil, nil, false, false, false
+	}
+	l1, _ = d.singletonObjects.Load(name)
+	l2, _ = d.earlySingletonObjects.Load(name)
+	_, l3 = d.singletonFactories.Load(name)
+	return l1, l2, l3, d.singletonCurrentlyInCreation.Exists(name), true
+}
